@@ -85,6 +85,7 @@ class Knobs:
         self.sibling_refs = rng.random() < 0.5   # types may refer to types of directories earlier in ORDER
         self.net_last = rng.random() < 0.3       # net types may refer to net/client and net/server types (not vice versa)
         self.p_collision_name = 0.25 if rng.random() < 0.35 else 0.0
+        self.p_odd_spelling = 0.4 if rng.random() < 0.2 else 0.0   # ordinals spelled 007 / +7 (the same integers)
 
 
 class TypeInfo:
@@ -184,6 +185,8 @@ class SpecGen:
         if rng.random() < self.k.p_comment:
             lines.append(f"        <comment>{escape(self.comment())}</comment>")
         for vn, o in values:
+            if self.k.p_odd_spelling and rng.random() < self.k.p_odd_spelling:
+                o = rng.choice([f"{o:03d}", f"+{o}", f"0{o}", f"{o:05d}"])
             if rng.random() < self.k.p_comment / 2:
                 lines.append(f'        <value name="{vn}">{o}<comment>{escape(self.comment())}</comment></value>')
             else:
